@@ -523,3 +523,124 @@ def r_store(repo, tier):
     if n < 6:
         raise AnalysisError("R-STORE: only %d store semantics found (6 confirmed: SB/SH/SW x2; rv64i ships no i_SD)" % n)
     return out
+
+
+# ======================================================================================= aux flag / arithmetic helper agreement
+_MAIN = {"AddWithCarry": "halfcarry", "SubWithBorrow": "halfborrow"}
+
+
+def r_auxflag(repo, tier):
+    out = RuleOut(
+        "R-AUXFLAG",
+        "x86/x64 semantics: in a function that computes its result with AddWithCarry(A, B[, C]) resp. SubWithBorrow(A, B[, C]), "
+        "every auxiliary-carry helper call is halfcarry resp. halfborrow with the very same argument list (same operands, and "
+        "the carry-in exactly when the result uses it); the helpers themselves apply the same primitive to the low nibbles "
+        "x[0:4], y[0:4] and forward the carry-in",
+    )
+    n = 0
+    for rel in ("amoco/arch/x86/asm.py", "amoco/arch/x64/asm.py"):
+        m = repo.mod(rel)
+        for hn, prim in (("halfcarry", "AddWithCarry"), ("halfborrow", "SubWithBorrow")):
+            h = m.functions.get(hn)
+            if h is None:
+                raise AnalysisError("anchor vanished: %s in %s" % (hn, rel))
+            ps = h.params()
+            calls = [c for c in ast.walk(h.node) if isinstance(c, ast.Call) and isinstance(c.func, ast.Name) and c.func.id in _MAIN]
+            want = ["%s[0:4]" % ps[0], "%s[0:4]" % ps[1], ps[2]] if len(ps) >= 3 else None
+            ok = len(calls) == 1 and calls[0].func.id == prim and want is not None and [norm(a) for a in calls[0].args] == want
+            n += 1
+            out.inst("%s::%s" % (rel, hn), {"helper": hn, "body_call": norm(calls[0]) if calls else None})
+            if not ok:
+                out.report(rel, hn, "helper body", h.node.lineno, "%s must be %s(%s) on the low nibbles with the carry-in forwarded" % (hn, prim, ", ".join(want or ["x[0:4]", "y[0:4]", "c"])))
+        for f in m.functions.values():
+            if f.name in _MAIN.values():
+                continue
+            mains = [c for c in _walk_no_nested(f.node) if isinstance(c, ast.Call) and isinstance(c.func, ast.Name) and c.func.id in _MAIN]
+            aux = [c for c in _walk_no_nested(f.node) if isinstance(c, ast.Call) and isinstance(c.func, ast.Name) and c.func.id in _MAIN.values()]
+            if not aux:
+                continue
+            if len({norm(c) for c in mains}) != 1:
+                out.undecide(rel, f.dqual, "aux flag", "function has %d distinct arithmetic helper calls" % len({norm(c) for c in mains}))
+                continue
+            mc = mains[0]
+            for a in aux:
+                n += 1
+                same_kind = a.func.id == _MAIN[mc.func.id]
+                same_args = [norm(x) for x in a.args] == [norm(x) for x in mc.args] and not a.keywords and not mc.keywords
+                out.inst("%s::%s::%s@%d" % (rel, f.dqual, norm(a), a.lineno), {"function": f.dqual, "result": norm(mc), "aux": norm(a)})
+                if not same_kind:
+                    out.report(rel, f.dqual, "aux %s vs %s" % (norm(a), norm(mc)), a.lineno, "the auxiliary flag is computed with %s but the result with %s" % (a.func.id, mc.func.id))
+                elif not same_args:
+                    out.report(rel, f.dqual, "aux %s vs %s" % (norm(a), norm(mc)), a.lineno, "the auxiliary carry is computed from (%s) but the result from (%s): operands / carry-in differ" % (", ".join(norm(x) for x in a.args), ", ".join(norm(x) for x in mc.args)))
+    out.stats["sites"] = n
+    if n < 20:
+        raise AnalysisError("R-AUXFLAG: only %d sites" % n)
+    return out
+
+
+# ======================================================================================= size-indexed register tables
+def env_reg_sizes(repo, rel):
+    """name -> bit size for module-level `X = reg(name, N)` / `X = slc(base, pos, N, name)` bindings (star-imports followed)"""
+    sizes = {}
+    seen = set()
+
+    def visit(modrel):
+        if modrel in seen:
+            return
+        seen.add(modrel)
+        try:
+            m = repo.mod(modrel)
+        except AnalysisError:
+            return
+        for s in ast.walk(m.tree):
+            if isinstance(s, ast.Assign) and len(s.targets) == 1 and isinstance(s.targets[0], ast.Name) and isinstance(s.value, ast.Call) and isinstance(s.value.func, ast.Name):
+                fn, a = s.value.func.id, s.value.args
+                if fn == "reg" and len(a) >= 2 and isinstance(a[1], ast.Constant) and isinstance(a[1].value, int):
+                    sizes.setdefault(s.targets[0].id, a[1].value)
+                elif fn == "slc" and len(a) >= 3 and isinstance(a[2], ast.Constant) and isinstance(a[2].value, int):
+                    sizes.setdefault(s.targets[0].id, a[2].value)
+        for s in m.tree.body:
+            if isinstance(s, ast.ImportFrom) and s.module and any(al.name == "*" for al in s.names):
+                modname = s.module
+                if s.level:
+                    base = m.name.split(".")[: -s.level]
+                    modname = ".".join(base + [s.module])
+                visit(modname.replace(".", "/") + ".py")
+
+    visit(rel)
+    return sizes
+
+
+def r_sizetab(repo, tier):
+    out = RuleOut(
+        "R-SIZETAB",
+        "x86/x64: a dict literal indexed by an operand size ({8: ..., 16: ..., 32: ...}[x.size]) maps every size to registers of "
+        "exactly that size (sizes read from the reg(name, n) / slc(base, pos, n, name) definitions of the env module)",
+    )
+    n = 0
+    for arch, envrel in (("x86", "amoco/arch/x86/env.py"), ("x64", "amoco/arch/x64/env.py")):
+        sizes = env_reg_sizes(repo, envrel)
+        if sizes.get("al") != 8 or sizes.get("eax") != 32:
+            raise AnalysisError("R-SIZETAB: register sizes of %s not recovered (al=%s eax=%s)" % (envrel, sizes.get("al"), sizes.get("eax")))
+        for rel in ("amoco/arch/%s/asm.py" % arch, "amoco/arch/%s/utils.py" % arch):
+            m = repo.mod(rel)
+            for f in m.functions.values():
+                for d in _walk_no_nested(f.node):
+                    if not (isinstance(d, ast.Subscript) and isinstance(d.value, ast.Dict) and ".size" in norm(d.slice)):
+                        continue
+                    for k, v in zip(d.value.keys, d.value.values):
+                        if not (isinstance(k, ast.Constant) and isinstance(k.value, int)):
+                            continue
+                        regs = v.elts if isinstance(v, ast.Tuple) else [v]
+                        for pos, r in enumerate(regs):
+                            if not isinstance(r, ast.Name) or r.id not in sizes:
+                                continue
+                            n += 1
+                            out.inst("%s::%s::%d:%s" % (rel, f.dqual, k.value, r.id), {"function": f.dqual, "size": k.value, "register": r.id, "register_size": sizes[r.id]})
+                            # the (lo, hi) pair of the 8-bit MUL/DIV row is (al, ah): both 8 bits -- same rule
+                            if sizes[r.id] != k.value:
+                                out.report(rel, f.dqual, "size table %d -> %s" % (k.value, r.id), r.lineno, "the row for %d-bit operands selects register %s which is %d bits wide (indexed by %s)" % (k.value, r.id, sizes[r.id], norm(d.slice)))
+    out.stats["rows"] = n
+    if n < 30:
+        raise AnalysisError("R-SIZETAB: only %d table rows resolved" % n)
+    return out
